@@ -12,6 +12,7 @@ import importlib
 import json
 import os
 import random
+import shutil
 import sys
 import threading
 import time
@@ -85,6 +86,8 @@ def default_execute(scn, ctx, timeout=10.0, digests=False):
             o["bytes"] = list(r["stdout"])
         elif fmt == "text":
             o["text"] = r["stdout"].decode("utf-8", "replace")
+        elif fmt == "none":
+            o["stdout_head"] = r["stdout"][:200].decode("utf-8", "replace")
         o["nbytes"] = len(r["stdout"])
         obs[run["tag"]] = o
     rec = dict(scn)
@@ -203,6 +206,7 @@ def save_replay(prop, rec, verdict):
 def run_check(prop, tier, seed):
     t0 = time.time()
     lib.ensure_build()
+    shutil.rmtree(os.path.join(lib.VERIF, "replays", prop.ID), ignore_errors=True)      # replays of earlier runs are stale
     ctx = Ctx(tier, seed)
     states = transitions = 0
     mech_info = []
